@@ -113,6 +113,8 @@ class Gen:
             if self.elems:
                 data.append(datadef("cid", "id"))
                 data.append(datadef("me", "self"))
+                if r.random() < 0.08:
+                    data.append(datadef("_rng", "seedrng"))
             comps.append({"data": data, "tpl": None, "assets": no_assets()})
         if self.hooks:
             for i in range(1, n + 1):
@@ -421,6 +423,10 @@ def make_component(prog, idx: int, tag: str, log: Optional[list] = None, extra: 
                 d[e["x"]] = e["v"]
             elif k == "id":
                 d[e["x"]] = self.id
+            elif k == "seedrng":
+                import random as _random
+                _random.seed(20260926)
+                d[e["x"]] = ""
             elif k == "self":
                 d[e["x"]] = self
             elif k == "clist":
